@@ -19,3 +19,10 @@ def symmray():
     if got != os.path.realpath(REPO):
         raise RuntimeError(f"symmray imported from {got}, expected {REPO}")
     return sr
+
+
+def scratch(*parts):
+    """run-time scratch directory under the checks' own tree (generated harnesses, reachability twins)"""
+    d = os.path.join(VERIF, ".scratch", *parts)
+    os.makedirs(d, exist_ok=True)
+    return d
